@@ -12,7 +12,7 @@ for dir in "$@"; do
   res_apply=ok
   git apply "$dir/patch.diff" 2>/dev/null || git apply --3way "$dir/patch.diff" 2>/dev/null || res_apply=FAILED
   suite="skipped"; demo_with="skipped"; demo_without="skipped"
-  demo_cmd=$(python3 -c "import json,sys;print(json.load(open('$dir/meta.json')).get('demo_cmd',''))" 2>/dev/null | sed -e 's#^cd [^&]*&& *##')
+  demo_cmd=$(python3 -c "import json,sys;print(json.load(open('$dir/meta.json')).get('demo_cmd',''))" 2>/dev/null | sed -e 's#^cd [^&]*&& *##' -e 's#CARGO_TARGET_DIR=[^ ]* ##g')
   if [ "$res_apply" = ok ]; then
     out=$(cargo nextest run --workspace --no-fail-fast --offline --test-threads 8 2>&1 | grep -E "Summary|error(\[|:)" | tail -3)
     suite="$out"
